@@ -173,7 +173,11 @@ class BusSession:
             return text
         pat = re.compile('|'.join(re.escape(n) + r'(?![0-9])' for n, _ in names))
         d = dict(names)
-        return pat.sub(lambda mo: '@' + d[mo.group(0)], text)
+        text = pat.sub(lambda mo: '@' + d[mo.group(0)], text)
+        # the same names hex-encoded (canonical message text carries strings as hex)
+        hpat = re.compile('|'.join(n.encode().hex() + r'(?!3[0-9])' for n, _ in names))
+        hd = {n.encode().hex(): ('@' + l).encode().hex() for n, l in names}
+        return hpat.sub(lambda mo: hd[mo.group(0)], text)
 
     def lab(self, uname):
         """unique name bytes -> '@label' (or the name itself if unknown)."""
